@@ -102,6 +102,10 @@ type DB struct {
 	Canned [][]Val
 	// Sent is every DataRow sent (values as on the wire)
 	Sent [][]Val
+	// EchoErrors makes every ErrorResponse quote the failing statement (Message) and its bound parameter values
+	// (Detail), the way a real server quotes values ("invalid input syntax for type integer: \"abc\"",
+	// "Key (email)=(…) already exists") – used by C16 to see whether the proxy logs what it relays
+	EchoErrors bool
 }
 
 func NewDB(defs []TableDef) *DB {
@@ -195,12 +199,26 @@ func (db *DB) Serve(conn net.Conn) {
 	stmts := map[string]*prepared{}
 	portals := map[string]*portal{}
 	skip := false // extended protocol: after an error, discard until Sync
+	var curSQL string       // statement being answered (EchoErrors)
+	var curParams [][]byte // its bound parameters
 	fail := func(err error) {
 		var de *dbError
 		if !errors.As(err, &de) {
 			de = &dbError{"XX000", err.Error()}
 		}
-		be.Send(&pgproto3.ErrorResponse{Severity: "ERROR", SeverityUnlocalized: "ERROR", Code: de.code, Message: de.msg})
+		er := &pgproto3.ErrorResponse{Severity: "ERROR", SeverityUnlocalized: "ERROR", Code: de.code, Message: de.msg}
+		if db.EchoErrors {
+			er.Message = fmt.Sprintf("%s at or near \"%s\"", de.msg, curSQL)
+			var ps []string
+			for i, p := range curParams {
+				ps = append(ps, fmt.Sprintf("$%d = '%s'", i+1, p))
+			}
+			if len(ps) > 0 {
+				er.Detail = "parameters: " + strings.Join(ps, ", ")
+			}
+			er.InternalQuery = curSQL
+		}
+		be.Send(er)
 	}
 	for {
 		msg, err := be.Receive()
@@ -213,6 +231,7 @@ func (db *DB) Serve(conn net.Conn) {
 		case *pgproto3.Query:
 			db.note("Q")
 			sql := m.String
+			curSQL, curParams = sql, nil
 			tree, perr := pg_query.Parse(sql)
 			if perr != nil {
 				db.logStmt(&Stmt{Kind: "other", SQL: sql, Err: "syntax"})
@@ -245,6 +264,7 @@ func (db *DB) Serve(conn net.Conn) {
 			db.mu.Lock()
 			db.Parses = append(db.Parses, m.Query)
 			db.mu.Unlock()
+			curSQL, curParams = m.Query, nil
 			tree, perr := pg_query.Parse(m.Query)
 			if perr != nil || len(tree.Stmts) > 1 {
 				db.logStmt(&Stmt{Kind: "other", SQL: m.Query, Err: "syntax"})
@@ -324,6 +344,7 @@ func (db *DB) Serve(conn net.Conn) {
 				continue
 			}
 			if !p.started {
+				curSQL, curParams = p.ps.sql, p.params
 				out, tag, eerr := db.exec(p.ps.sql, p.ps.tree, p.params, p.pfmt, p.rfmt, false)
 				if eerr != nil {
 					fail(eerr)
